@@ -117,3 +117,27 @@ def replay_conflicts() -> str:
     lr = JaqalParser._lrtable
     c = list(getattr(lr, "sr_conflicts", [])) + list(getattr(lr, "rr_conflicts", []))
     return f"parser table has conflicts {c[:3]}" if c else ""
+
+
+def replay_token_class(w: str, token) -> str:
+    """w followed by a space must lex as exactly one token `token` (token None: w must not be a single
+    token of a class it does not belong to -- judged by the reference tokenizer)."""
+    from jaqalpaq.parser.slyparse import JaqalLexer
+    from vf.spec import reflex
+    try:
+        toks = [(t.type, t.index) for t in JaqalLexer().tokenize(w + " ")]
+    except JaqalError as ex:
+        toks = "error"
+    try:
+        ref = [(t, i) for t, i, _ in reflex.tokens(w + " ")]
+    except reflex.LexProblem:
+        ref = "error"
+    except reflex.Unspecified:
+        return ""
+    if token is not None and isinstance(token, str) and len(token) > 1:
+        if toks == "error" or [t for t, _ in toks] != [token]:
+            return f"{w!r} is lexed as {toks}, expected one {token} token"
+        return ""
+    if toks != ref:
+        return f"{w!r} is lexed as {toks}, the reference tokenizer gives {ref}"
+    return ""
